@@ -14,7 +14,7 @@ for (const f of process.argv.slice(2)) {
       const pm = /^function\s*\(([^)]*)\)/.exec(src);
       const params = pm ? pm[1].split(',').map((s) => s.trim()).filter((s) => s.length) : null;
       const calls = [];
-      const self = { request: function () { calls.push(Array.from(arguments)); return { $m: 'ret' }; } };
+      const self = { request: function () { calls.push(Array.from(arguments).map((a) => (a === undefined ? { $m: 'undefined' } : a))); return { $m: 'ret' }; } };
       let ret = null, err = null;
       try {
         ret = fn.apply(self, (params || []).map((p) => ({ $m: p })));
